@@ -326,6 +326,9 @@ def run_case(case):
     res = dict(stats={}, viol=[], nontrivial=[], inconclusive=[])
     typ = case["type"]
     cfg = case.get("cfg") or make_cfg(case["seed"], case["i"], typ)
+    if not case.get("cfg") and case["i"] % 5 == 2 and not cfg.get("nsamples"):
+        gen.without_logging(cfg)      # as most callers run it; evaluation k is point k (no averaging in this check)
+        res["stats"]["references_without_logging"] = 1
     case["cfg"] = cfg
     ref = one_run(cfg, res, typ)
     res["stats"]["family|" + typ] = 1
